@@ -311,16 +311,26 @@ P = {
        "scan).",
   ref="DESIGN.md section 5 C07"),
  "C08": dict(
-  text="34 Lean theorems about the executable model of xmath.BitSet (words as BitVec 64, every loop transcribed): per-operation "
-       "effect on membership for Set/Clear/Flip and the three range forms (reversed, in-word, multi-word, beyond capacity), "
-       "run_refines (any history on two bit sets = mathematical set), count_card (Count = cardinality after every history), "
-       "countSetBits_eq_popcount (the repo's SWAR routine is the population count, kernel-only byte-lane proof), the six "
-       "searches return the extreme matching index or the sentinel, Trim/Data/EnsureCapacity/Clone/Copy/Reset/Load laws, "
-       "Load(Data()) identity, Equal iff same members. ~360k operations per quick run incl. full observations.",
-  note="negative indexes terminate the process by design (domain index >= 0); capacity growth policy is not observable through "
-       "the API and deliberately not compared; Go's countSetBits is additionally compared with the model through a -overlay "
-       "accessor (popcnt stream).",
-  ref="DESIGN.md section 5 C08"),
+  text="50 Lean theorems about the executable model of xmath.BitSet (words as BitVec 64, every loop transcribed): after every "
+       "history of all 14 mutating calls on two bit sets the members equal those of a mathematical set (run_refines) and Count "
+       "is the cardinality (count_card); the six searches return the extreme index or the sentinel; Trim, Data, EnsureCapacity, "
+       "Clone, Copy, Reset preserve the set, Load(Data()) reproduces it, Equal iff the members agree; countSetBits is the "
+       "popcount on every word (SWAR proof, kernel only). NO PANIC: a checked transcription whose reads, writes and slicings "
+       "return none exactly where Go would panic is proved to return some of the total model on every state "
+       "(all_accesses_in_bounds, _run, _queries; bounds_contrast shows it sees a missing EnsureCapacity/clamp/swap). NO "
+       "ALIASING: in a heap-of-arrays model that places every write where the code places it, the two bit sets and the caller's "
+       "slices never share storage and the heap denotes what the value model computes (heap_refines, no_aliasing, "
+       "scribble_harmless; aliasing_contrast refutes a sharing Clone, a Data returning the receiver's slice and the pre-fix "
+       "Copy(self)). RANGE MASKS: any word-at-a-time range implementation with masks MaxUint64<<startBit / "
+       "MaxUint64>>(63-endBit) equals the per-bit loops in words and count (word_at_a_time_ops, mask_contrast). The driver runs "
+       "the heap model and the checked transcription against two real bit sets with caller scribbles.",
+  note="the value model the set theorems speak about is linked to the executed heap/checked models by theorem; identity of "
+       "*BitSet values is not modelled; Go int overflow near MaxInt is outside the model; stored indexes stay below 2^20+64 in "
+       "the streams while non-allocating calls are driven to MaxInt; negative indexes terminate the process by design (domain "
+       "index >= 0); capacity growth policy is not observable through the API and deliberately not compared; countSetBits is "
+       "reached through an overlay and that area is dropped if the helper disappears; the mask library is about a shape the "
+       "code does not currently have (groundwork, and documentation of why the ind4/ind5 mutants are wrong).",
+  ref="DESIGN.md section 5 C08, section 0"),
  "C17": dict(
   text="27 Lean theorems about the executable model of notifier.Notifier (three maps, batch level, enabled flag, a world of "
        "notifiers): registered_spec and maps_consistent over all histories, notify_targets (exactly the targets registered for "
